@@ -96,7 +96,7 @@ CHECKS.update({
    "Eight workloads of 2-3 concurrent requests run under a scheduler that owns the lock table and decides at every Database/Transport/protocol/callback call who continues: all schedules with at most 1 (thorough: 2; three-request variants 0/1) preemptions plus hundreds of random ones per workload. Every execution is judged for deadlock (no runnable request), conservation against the sequential run, once-only handling of duplicates, lock discipline and, with porcupine, linearizability of the add/read history against a set model. The same workloads then run on real goroutines with jitter under -race.",
    "Trusted: internal/sched (one request runs at a time; locks granted by the scheduler), internal/sim. Bounded preemptions and request count. The known opposite-order deadlock in InboxForwarding is a listed finding.",
    "DESIGN.md 5/C08"),
- "C11": ("c11drv+streamsmon+pubmon", "exploration",
+ "C11": ("c11drv", "exploration",
    "crash/hang oracle: recover() around every call in isolated journalled worker processes, logical call budget and watchdog for non-termination",
    "Grammar mutations of every vocabulary example and of generated documents, hostile JSON values and byte strings go through the decoder; the same operators are applied to request bodies and, one at a time, to every document the Transport/Database returns in every corpus scenario and protocol combination. Workers journal each case before running it, so a fatal error or stall is attributed to an input.",
    "Trusted: the journal protocol in internal/mut; the simulated application tolerates odd arguments so that a panic inside it is not mistaken for the library's. No finite run excludes a crashing input outside the explored neighbourhood.",
@@ -106,6 +106,13 @@ CHECKS.update({
    "The bundled HttpSigTransport is driven with a recording HttpClient and recording signers: every status 100..599 and a transport error for Dereference and Deliver, all combinations of nine outcome classes for batches of 1..3, seeded random batches up to 64 recipients with duplicates, eight concurrent batches and dereferences on one transport value; headers, key, key id, body identity, header stability after signing, attempt multiplicity, error presence and naming, signer mutual exclusion are checked; RSA-SHA256 and HMAC-SHA256 signatures over five header lists must verify; race reports fail the run.",
    "Trusted: the recording client/signers; the Digest header produced by the pinned httpsig is not judged. Real-signer phases run in a child process so a crash is attributed.",
    "DESIGN.md 5/C19"),
+})
+CHECKS.update({
+ "C15": ("gencheck", "exploration",
+   "differential monitor over repeated fresh-process generator runs + reference-model monitors (C13, C12, C01) re-run against generated extension trees",
+   "astool is built from the working tree and run in fresh processes on the shipped vocabularies (3 runs quick, 24 thorough): all outputs must be byte-identical and equal, file by file and comment-free syntax tree by syntax tree, to the shipped streams package. Seeded random extension vocabularies (1 quick, 10 thorough) are generated, compiled, and judged by the streamsmon engine built against that tree with the ontology oracle extended by the extension file.",
+   "Trusted: go/parser and go/printer for the syntax-tree comparison; the extension generator stays within constructs demonstrated by the shipped extension vocabularies.",
+   "DESIGN.md 5/C15"),
 })
 ALL = ["C%02d" % i for i in range(1, 21)]
 NOT_APPLICABLE = {}
